@@ -1,5 +1,6 @@
 import LinOp.Core.Parse
 import LinOp.C18.Model
+import LinOp.C18.ModelRoots
 /-! Line-protocol driver for the C18 sampler-layout model.  Scalars are exact rationals.
   generic n m k R Z | diag n k sd Z | blockDiag nb n k X | blockInterleaved nb n k X | sumBatch nb n k X
   interp nBase r q k IDX VAL X       (X : k rows of the base draws; for block ops a row lists (b, r) row-major) -/
@@ -55,6 +56,39 @@ def run (line : String) : String :=
     | some n1, some m1, some n2, some m2, some a, some b =>
       if h : 0 < n2 then if h' : 0 < m2 then out (kronFlat (getM a n1 m1) (getM b n2 m2) h h') else "bad-op" else "bad-op"
     | _, _, _, _, _, _ => "bad-op"
+  | ["cholRoot", n, upper, t] =>
+    match n.toNat?, parseMat? t with
+    | some n, some t => out (cholRoot (upper = "1") (getM t n n))
+    | _, _ => "bad-op"
+  | ["scaleCols", n, m, sv, u, _] =>
+    match n.toNat?, m.toNat?, parseRats? sv, parseMat? u with
+    | some n, some m, some sv, some u =>
+      let sa := sv.toArray
+      out (scaleCols (getM u n m) (fun j : Fin m => sa[j.1]!))
+    | _, _, _, _ => "bad-op"
+  | ["mmul", n, m, p, a, b] =>
+    match n.toNat?, m.toNat?, p.toNat?, parseMat? a, parseMat? b with
+    | some n, some m, some p, some a, some b => out (mmul (getM a n m) (getM b m p))
+    | _, _, _, _, _ => "bad-op"
+  | ["repeatMember", base, reps, fs] =>
+    -- for every flat output member f in fs: the flat base member it reads
+    let pl := fun (s : String) => if s = "-" then some [] else (s.splitOn ",").mapM String.toNat?
+    match pl base, pl reps, pl fs with
+    | some base, some reps, some fs => ",".intercalate (fs.map fun f => toString (repeatMember base reps f))
+    | _, _, _ => "bad-op"
+  | ["repeatShape", base, reps] =>
+    let pl := fun (s : String) => if s = "-" then some [] else (s.splitOn ",").mapM String.toNat?
+    match pl base, pl reps with
+    | some base, some reps => ",".intercalate ((repeatShape base reps).map toString)
+    | _, _ => "bad-op"
+  | ["samplerShape", kind, batch, n, k, q] =>
+    let pl := fun (s : String) => if s = "-" then some [] else (s.splitOn ",").mapM String.toNat?
+    match pl batch, n.toNat?, k.toNat?, q.toNat? with
+    | some batch, some n, some k, some q =>
+      let l := if kind = "diag" then diagShape k batch n else if kind = "ciq" then ciqShape batch n k q
+               else if kind = "ciqNoise" then ciqNoiseShape batch n k else []
+      ",".intercalate (l.map toString)
+    | _, _, _, _ => "bad-op"
   | ["shape", rb, batch, n, m, m', k] =>
     -- batch shapes as comma lists, "-" = empty
     let pl := fun (s : String) => if s = "-" then some [] else (s.splitOn ",").mapM String.toNat?
